@@ -14,7 +14,7 @@ RULE = ('cases are batches of values pushed through the real WriteBuf/ReadBuf/SS
         'socket, and real audits whose packets the peer decodes strictly; a batch is non-trivial when it evaluated >= 1 value and every oracle '
         '(independent RFC 4251 encoder, decode(encode(v)) == v, re-encode == bytes, RFC 4253 s6 framing, own reader read-back) was reached; '
         'distinct = distinct batch specifications')
-REQUIRED = {'ssh1_packets_length_multiple_of_8': 3, 'mpint2_values': 1000, 'mpint1_values': 500, 'packets_framed': 100, 'packets_readback': 100, 'messages': 50, 'e2e_packets': 10}
+REQUIRED = {'e2e_connections_reset_by_peer': 3, 'ssh1_packets_length_multiple_of_8': 3, 'mpint2_values': 1000, 'mpint1_values': 500, 'packets_framed': 100, 'packets_readback': 100, 'messages': 50, 'e2e_packets': 10}
 ASSUMPTIONS = ['harness/wire.py is a correct RFC 4251/4253 codec (self-tested against RFC examples and int.to_bytes)',
                'SSH-1 multiple precision integers carry no sign: mpint1 is checked on non-negative integers only']
 MANIFEST = {
@@ -55,6 +55,8 @@ def cases(tier, seed):
     cs.append({'kind': 'ssh1crc', 'seed': rng.randrange(1 << 30), 'n': 400})
     for i in range(12 if tier == 'quick' else 120):
         cs.append({'kind': 'e2e', 'seed': rng.randrange(1 << 30)})
+    for i in range(3 if tier == 'quick' else 20):
+        cs.append({'kind': 'e2e', 'seed': rng.randrange(1 << 30), 'reset': True})
     return cs
 
 
@@ -394,6 +396,11 @@ def run_e2e(c):
     script = {'banner': 'SSH-2.0-OpenSSH_9.3', 'kex': audit.sym_kex(kex, key, enc, mac, comp=rng.choice([['none'], ['none', 'zlib@openssh.com']])),
               'hostkeys': {'ssh-rsa': {'type': 'rsa', 'bits': 3072}, 'rsa-sha2-256': {'type': 'rsa', 'bits': 3072}, 'ssh-ed25519': {'type': 'ed25519'}, 'ecdsa-sha2-nistp256': {'type': 'ecdsa', 'bits': 256}},
               'gex': {'sizes': [2048, 4096], 'style': 'strict'}}
+    if c.get('reset'):
+        # the server hands out a large group and then resets the connection: the tool's next send on that connection fails, and whatever it had assembled must not leak into the next connection
+        script['kex'] = audit.sym_kex(['curve25519-sha256', 'diffie-hellman-group-exchange-sha256'], key, enc, mac)
+        script['gex'] = {'sizes': [8192], 'style': 'roundup'}
+        script['faults'] = [{'conn': {'ge': 1}, 'at': 'gexgroup', 'op': 'then_reset', 'pause': 0.03}]
     r, p = audit.audit_server(script, ['-n'])
     viol, npk = [], 0
     if r.status not in (0, 2, 3):
@@ -405,7 +412,10 @@ def run_e2e(c):
             viol.append(_v('C10/emitted-kexinit-undecodable', 'the tool\'s own KEXINIT does not decode strictly: ' + e['why']))
         if e['kind'] == 'partial-at-eof':
             viol.append(_v('C10/partial-packet', 'connection ended inside a packet'))
+    resets = sum(1 for e in p.events if e['kind'] == 'closed' and e.get('reset'))
     for cn in p.conns:
+        if cn.packets and cn.packets[0][2] and cn.packets[0][0] != wire.MSG_KEXINIT:
+            viol.append(_v('C10/first-packet-not-kexinit:%d' % cn.packets[0][0], 'the first packet the tool sent on a connection is not its KEXINIT', conn=cn.idx, type=cn.packets[0][0], n=len(cn.packets[0][1])))
         for t, payload, ok, why in cn.packets:
             npk += 1
             if not ok:
@@ -421,7 +431,7 @@ def run_e2e(c):
                         raise wire.WireError('GEX_INIT e is not a canonical positive mpint')
             except (wire.WireError, struct.error) as e:
                 viol.append(_v('C10/emitted-message-malformed:%d' % t, str(e)))
-    return viol, {'e2e_packets': npk, 'e2e_connections': len(p.conns)}
+    return viol, {'e2e_packets': npk, 'e2e_connections': len(p.conns), 'e2e_connections_reset_by_peer': resets}
 
 
 RUNNERS = {'dense': run_dense, 'pow2': run_pow2, 'words': run_words, 'random': run_random, 'framing': run_framing, 'messages': run_messages, 'ssh1crc': run_ssh1crc, 'e2e': run_e2e}
